@@ -49,7 +49,7 @@ from hypothesis import strategies as st
 import nfc.clf
 
 from vlib import ref_crc, simchip, vsched
-from vlib.engine import HarnessError, Leg, Violation, unexpected, twin_O
+from vlib.engine import HarnessError, Leg, Violation, unexpected, twin_O, twin_env
 
 PROPERTY = "C13"
 LEVEL = "fault_enumeration"
@@ -1613,3 +1613,10 @@ LEGS += [
     twin_O(_by['hostfault']),
     twin_O(_by['udp']),
 ]
+
+# the same searches with every nfc logger enabled down to the lowest level
+# (code that only runs, or only evaluates its arguments, when logging is on)
+_byl = dict((lg.name, lg) for lg in LEGS)
+LEGS += [twin_env(_byl[n], "log", {"VERIF_LOG": "debug"}, quick=q, thorough=t,
+                  shards_quick=2)
+         for n, q, t in [('mixed', 500, 5000)] if n in _byl]
